@@ -360,6 +360,8 @@ def judge(case, obs):
               clamped=("min" if H == HMIN else "max" if H == HMAX else "no"))
     if obs["ghe_nbh"] != nbh:
         v("C12", "nbh_mismatch", f"{method}: ghe.nbh={obs['ghe_nbh']} but {nbh} coordinates")
+    if obs.get("selected_coordinates_len") is not None and obs["selected_coordinates_len"] != nbh:
+        v("C12", "nbh_mismatch", f"{method}: the search reports {obs['selected_coordinates_len']} selected coordinates, the sized GHE has {nbh}", where="selected_coordinates")
     qi = 0
     for r in obs["tracker"]:
         if abs(r[1] - max(r[2] - world.max_allow, world.min_allow - r[3])) > 1e-12:
@@ -568,6 +570,17 @@ def expand(chunk):
                     for cont in (False, True):
                         yield {"fam": fam, "method": method, "synthetic": [counts], "cap": None, "cont": cont, "flow": chunk.get("flow", "borehole"),
                                "world": {"kind": "roots", "roots": roots, **wv}, "t": t, "cls": cls}
+    elif fam == "A1R":
+        # every candidate fails over the whole height window and fails *more* the deeper it is: the documented fallback is
+        # still "largest allowed candidate at maximum height"
+        n = chunk["n"]
+        counts = list(range(1, n + 1))
+        roots = {("0:1" if c == 1 else f"0:{c}"): HMIN - 7.0 - 2.0 * (n - i) - IRR for i, c in enumerate(counts)}
+        for cap in caps_for(counts, None, False):
+            for cont in (False, True):
+                for slope in (1.0, 0.03):
+                    yield {"fam": fam, "method": method, "synthetic": [counts], "cap": cap, "cont": cont, "flow": chunk.get("flow", "borehole"),
+                           "world": {"kind": "roots", "roots": roots, "slope": slope, "side": "max", "shape": "rising", "limits": "wide"}}
     elif fam == "A7":
         n = chunk["n"]
         counts = list(range(1, n + 1))
